@@ -58,8 +58,18 @@ def cases(tier, rng, run):
                         if cand:
                             j = rng.choice(cand)
                             c0, _o, sh0 = specs[j].split(",", 2)
-                            specs[j] = f"{c0},1,{sh0}"
+                            specs[j] = f"{c0},{rng.choice('1457')},{sh0}"   # `T | None`, Optional[T], `None | T`, Optional[Optional[T]]
                             vals[j] = "N"
+                            others = [i for i, k in enumerate(kinds) if k != 2 and i != j and i != fault_pos]
+                            if others and rng.random() < 0.3:
+                                # ... and None at a position whose hint has no `| None`: that element is not optional because another one is
+                                vals[rng.choice(others)] = "N"
+                    # any annotated element may be written as an optional hint (in any of its spellings) and still hold an array,
+                    # which is then checked exactly as without `| None`
+                    for i2, sp in enumerate(specs):
+                        if sp != "-" and sp.split(",")[1] == "0" and rng.random() < 0.25:
+                            c0, _o, sh0 = sp.split(",", 2)
+                            specs[i2] = f"{c0},{rng.choice('1457')},{sh0}"
                     # a plain position may also be spelled `Annotated[int, <metadata that is no dltype annotation>]`
                     specs = [("-a" if sp == "-" and rng.random() < 0.5 else sp) for sp in specs]
                     p = f"P|t|T|{';'.join(specs)}|U:{';'.join(vals)}"
@@ -119,12 +129,16 @@ def judge(case, impl_out, spec):
     c = ctxcommon.ctx_of(case)
     if c is None:
         return None
+    end = callcommon.end_of(impl_out)
+    accepted = end == "ok"
+    if callcommon.unsupported_first(c):
+        if accepted:
+            return "None (or a non-array) at an annotated tuple position without `| None` was accepted"
+        return None
     ents = c.entries()
     if ents is None:
         return None
     sp = oracle.spec_ctx(c.scope, ents, ctxcommon.accepts())
-    end = callcommon.end_of(impl_out)
-    accepted = end == "ok"
     if sp[0] == "conforms" and not accepted:
         return "tuple elements conform (bindings shared with the other parameter) but the call is rejected: " + impl_out
     if sp[0] == "violates":
